@@ -503,6 +503,42 @@ func (st *State) intrinsic(caller *frame, fn *ssa.Function, args []Value) (Value
 			out[i] = s
 		}
 		return out, true
+	case "verifMapOrderInstance":
+		st.mapOrderInstance = st.ConcInt(args[0].(*Term))
+		st.rangeCount = 0
+		st.mapSite = ""
+		return nil, true
+	case "verifRangeCount":
+		return ConstInt(64, int64(st.rangeCount)), true
+	case "verifMapSite":
+		return st.mapSite, true
+	case "verifFragments":
+		// all string fields of the struct handed to template.Execute, plus everything written with WriteString
+		out := ""
+		td := st.templateData
+		if iv, ok := td.(Iface); ok {
+			td = iv.V
+		}
+		if p, ok := td.(*Value); ok && p != nil {
+			if s, ok := (*p).(Struct); ok {
+				for i, f := range s {
+					switch x := f.(type) {
+					case string:
+						out += fmt.Sprintf("\x00field%d\x00", i) + x
+					case *Term:
+						out += fmt.Sprintf("\x00field%d\x00", i) + st.format(x)
+					}
+				}
+			}
+		}
+		for _, e := range st.fsEvents {
+			if strings.HasPrefix(e, "write:") {
+				out += "\x00w\x00" + e[6:]
+			}
+		}
+		st.templateData = nil
+		st.fsEvents = nil
+		return out, true
 	case "verifIsReplay":
 		return False, true
 	case "verifNote":
